@@ -17,6 +17,11 @@ def main():
             rc = mod.run(a.tier, seed)
         except build.BuildError as e:
             print('INCONCLUSIVE: build failed: %s' % e); rc = 2
+        except BaseException as e:
+            # an internal failure of the checker is never a verdict about the code: exit 2, not 1
+            import traceback
+            traceback.print_exc()
+            print('INCONCLUSIVE: internal error in the check (%s: %s)' % (type(e).__name__, str(e)[:300])); rc = 2
         sys.stdout.flush(); os._exit(rc)
     elif a.cmd == 'setup':
         from checks import selftest
